@@ -129,6 +129,14 @@ def check_tree(U, d, rec: Rec, route="direct"):
             except ValueError:
                 if expa:
                     bad("get_depth-relative-raise", "relative depth to an ancestor raised ValueError", path=p, other=q)
+            if expa:  # the rarely used switch only skips the validation; the distance to a real ancestor is the same
+                ev()
+                r2 = tr.get_depth(nd, relative_to=other, check_ancestor=False)
+                if r2 != len(p) - len(q):
+                    bad("get_depth-relative-unchecked", f"get_depth(relative_to=ancestor, check_ancestor=False) is {r2}, the chain says {len(p) - len(q)}", path=p, other=q)
+                r3 = tr.get_depth(nd, other, False)
+                if r3 != r2:
+                    bad("get_depth-relative-unchecked", "positional call differs from the keyword call", path=p, other=q)
         # first ancestor of type
         present = list(dict.fromkeys(dd[0] for dd in desc_at.values()))
         csets = [(c,) for c in present] + [("ASTNode",), ("ZL",), ("ZO",)] + [tuple(x) for x in itertools.combinations(present[:3], 2)]
